@@ -536,6 +536,12 @@ func (w *world) apply(op Op) string {
 			wait(l.srvGateAt, "server goroutine at the ack gate")
 			l.srvAtGate = true
 			l.srvPending = e.Id
+			if autoNext {
+				// repaired code under development: nextEventID is written before the ack is sent, the model has no SrvNext
+				l.srvAtGate = false
+				l.srvGateGo <- struct{}{}
+				wait(l.srvRecvAt, "server goroutine back in Recv")
+			}
 		} else {
 			l.srvAlive = false
 			select {
@@ -916,6 +922,13 @@ func realBad(real St, lt map[string]uint64) map[string]string {
 	}
 	quiescent := real.Cst == "up" && real.Link == "up" && len(real.C2S) == 0 && len(real.S2C) == 0 && real.Nr == -1 &&
 		!real.Pend.On && !real.Zomb.On
+	canMove := (real.Cst == "up" && real.Nr >= 0 && !real.Qclosed) || (real.Cst == "up" && len(real.S2C) > 0) ||
+		(real.Cst == "up" && real.Link == "down" && len(real.S2C) == 0) || (len(real.C2S) > 0 && !real.Pend.On && real.Sess.On) ||
+		real.Pend.On || real.Zomb.On || !real.PeerOn || !real.Bpeer ||
+		(real.PeerOn && real.Cst == "none" && real.Bpeer && !(real.Pend.On && real.Zomb.On))
+	if !quiescent && !canMove {
+		out["NoStuck"] = "neither node can do anything by itself although the stream is not idle"
+	}
 	if quiescent {
 		var local []string
 		for t := range lt {
@@ -937,22 +950,23 @@ func realBad(real St, lt map[string]uint64) map[string]string {
 // ---------------------------------------------------------------------------------------------- replay
 
 var (
-	rep       = tc.NewReporter()
-	retries   int64
-	badSeen   int64
-	minMu     sync.Mutex
-	minimal   = map[string]json.RawMessage{}
-	minLen    = map[string]int{}
-	opCount   = map[string]int64{}
-	maxTries  = 400
-	selfcheck = false
+	rep      = tc.NewReporter()
+	retries  int64
+	badSeen  int64
+	minMu    sync.Mutex
+	minimal  = map[string]json.RawMessage{}
+	minLen   = map[string]int{}
+	opCount  = map[string]int64{}
+	maxTries = 400
+	autoNext = false
 )
 
-func noteMinimal(sig string, n int, js []byte) {
+func noteMinimal(sig, what string, n int, js []byte) {
 	minMu.Lock()
 	if l, ok := minLen[sig]; !ok || n < l {
 		minLen[sig] = n
-		minimal[sig] = append([]byte(nil), js...)
+		b, _ := json.Marshal(map[string]interface{}{"what": what, "line": json.RawMessage(js)})
+		minimal[sig] = b
 	}
 	minMu.Unlock()
 }
@@ -1034,8 +1048,14 @@ func attempt(t *Trans, js []byte) (again bool, fatal string) {
 				rep.Div("harness", "the model reports "+b+" violated, the evaluation on the real objects does not", js, nil)
 				continue
 			}
-			sig := "C16:" + b + ":" + taint
-			noteMinimal(sig, len(t.Pre), js)
+			// tainted = the history contains the trigger of a recorded finding: the signature names the trigger(s);
+			// an untainted violation is named after the clause
+			sig := "C16:" + taint
+			if taint == "none" {
+				sig = "C16:untainted:" + b
+			}
+			obs = b + ": " + obs
+			noteMinimal(sig, obs, len(t.Pre), js)
 			rep.Div(sig, obs, js, map[string]interface{}{"history_len": len(t.Pre) + 1, "taint": t.Taint})
 		}
 	} else if rb := realBad(real, lt); len(rb) > 0 {
@@ -1049,6 +1069,7 @@ func attempt(t *Trans, js []byte) (again bool, fatal string) {
 func main() {
 	workers := flag.Int("workers", 0, "")
 	raw := flag.Bool("raw", false, "stdin lines are plain JSON (replay) instead of TLA+ string literals")
+	flag.BoolVar(&autoNext, "autonext", false, "release the ack gate at once (model run with Fixes next_before_ack)")
 	flag.Parse()
 	var err error
 	sharedConn, err = grpc.NewClient("passthrough:///verif-fake", grpc.WithTransportCredentials(insecure.NewCredentials()))
